@@ -29,7 +29,11 @@ def gen_simulation(rs, n_rows=(24, 60), force_nn_pair=None, absent_arm=False):
     cfgs = []
     used_metrics = []
     for l, p in combos:
-        c = gen.gen_cfg(rs, l, p, labels=labels, n_arms=n_arms)
+        c = gen.gen_cfg(rs, l, p, labels=labels, n_arms=n_arms, with_probs=bool(rs.integers(2)))
+        if p == "lsh" and rs.integers(2):
+            c["np"]["n_dimensions"] = int(gen.pick(rs, [5, 6, 7]))  # many buckets: empty neighbourhoods among the test rows
+        if p == "radius" and rs.integers(3) == 0:
+            c["np"]["radius"] = 1.0  # small radius: empty neighbourhoods among the test rows
         if p in ("radius", "knn"):
             # different metrics for the neighbourhood bandits of one simulation (they share a distance cache)
             choices = [m for m in METRICS if m not in used_metrics] or METRICS
